@@ -6,4 +6,9 @@ def run(tier, seed):
         "C01", ["C01.ok"], tier, seed,
         nontrivial=lambda c, e, o: any(a[0] == "w" for acts, _ in o for a in acts),
         rule="non-trivial = distinct schedule in which the implementation wrote a response")
+    # over real TLS (start_server in its own process, both backends): a multi-megabyte response to a reader that starts late
+    # arrives whole and ends cleanly - no half-written response
+    import livetls
+    livetls.run_whole_responses(res, tier, "C01")
+    res.rule += " | live: start_server on both TLS backends, 5 MiB (thorough 12 MiB) static file read after a 1 s delay, a small file and a 51"
     return res
